@@ -133,9 +133,18 @@ class Prop(BaseProp):
             np.random.seed(case["seed"])
             if case["scalar"]:
                 ctx.count("poisson_scalar_interval")
-                st = ctx.call(ps.generate_poisson_spikes, rate, T1, _name="generate_poisson_spikes", _repeat=False)
+                Tq = T1
+                if case["seed"] % 3 == 1:
+                    Tq = np.float64(T1)             # a numpy scalar is a single number, too (data.max(), arr[-1])
+                    ctx.count("poisson_scalar_interval_numpy")
+                st = ctx.call(ps.generate_poisson_spikes, rate, Tq, _name="generate_poisson_spikes", _repeat=False)
             else:
-                st = ctx.call(ps.generate_poisson_spikes, rate, [T0, T1], _name="generate_poisson_spikes", _repeat=False)
+                iv = [T0, T1]
+                if case["seed"] % 3 == 1:
+                    iv = (np.float64(T0), np.float64(T1))
+                elif case["seed"] % 3 == 2:
+                    iv = np.array([T0, T1])
+                st = ctx.call(ps.generate_poisson_spikes, rate, iv, _name="generate_poisson_spikes", _repeat=False)
             if T0 > 0:
                 ctx.count("poisson_shifted_start")
             if T0 < 0:
